@@ -92,7 +92,7 @@ def run(prop, repo="/repo", limit=None):
                     skipped.append((name, "patch does not apply to the current tree"))
                     continue
             try:
-                path, key, dt, cached = extract.extract("lib", repo=base)
+                path, key, dt, _was_cached = extract.extract("lib", repo=base)
             except Exception as e:
                 skipped.append((name, "does not build: %s" % str(e)[:80]))
                 continue
